@@ -93,7 +93,7 @@ def run_case(case):
     from bioscrape.simulator import ModelCSimInterface, SafeModelCSimInterface, py_simulate_model
     import bioscrape.random as brandom
     C = Counter({"calls": 1})
-    viol = []
+    viol = util.ViolList()
     sp = MODELS[case["model"]]
     M = specmod.build_model(sp, "ctor")
     t0, dt, n = GRIDS[case["grid"]]
